@@ -118,6 +118,48 @@ def real_graph(c, max_nodes):
                       max_nodes=max_nodes)
 
 
+def big_histories(rng, n):
+    """seeded histories with large batches: 1-D / 2-D boxes of side 3-5, 1-3 adds of 4-12 items each drawn (heavy
+    duplication) from 2-4 coordinates, both modes"""
+    out = []
+    for _ in range(n):
+        dim, side = rng.choice([1, 2]), rng.randint(3, 5)
+        box = _box(dim, side)
+        adds = []
+        for _ in range(rng.randint(1, 3)):
+            few = rng.sample(box, min(len(box), rng.randint(2, 4)))
+            b = [list(rng.choice(few)) for _ in range(rng.randint(4, 12))]
+            adds.append(dict(ev="add", batch=b, vals=_vals(len(b)), additive=rng.random() < 0.4))
+        out.append(dict(dim=dim, side=side, L=len(adds), maxb=[len(a["batch"]) for a in adds], kind="big", adds=adds))
+    return out
+
+
+def path_graph(c):
+    """one history executed on a fresh real object, as a path graph; after every add: reads of every inserted
+    coordinate (alone, all together in reverse) and of a coordinate never inserted (alone, with a stored one)"""
+    d = Drv(c["dim"])
+    box = _box(c["dim"], c["side"])
+    nodes, edges, inserted = [project(d)], [[]], []
+
+    def step(call):
+        res = apply(d, call)
+        p = project(d)
+        if call["ev"] == "add" or p != nodes[-1]:  # (a read that writes gets its own node: ReadsDoNotWrite sees it)
+            nodes.append(p)
+            edges.append([])
+            edges[-2].append(dict(call, **res, dst=len(nodes)))
+        else:
+            edges[-1].append(dict(call, **res, dst=len(nodes)))
+
+    for a in c["adds"]:
+        step(a)
+        inserted += [x for k, x in enumerate(a["batch"]) if x not in inserted and x not in a["batch"][:k]]
+        absent = [x for x in box if x not in inserted]
+        for b in [[x] for x in inserted] + [inserted[::-1]] + ([[absent[0]], [inserted[0], absent[-1]]] if absent else []):
+            step(dict(ev="get", batch=b))
+    return dict(nodes=nodes, edges=edges, truncated=False, cut=[False] * len(nodes))
+
+
 def consts_of(c, design=False):
     return dict(Dim=c["dim"], Side=c["side"], MaxBatch=c.get("design_maxb", 3), GetBatch=c.get("design_getb", 2),
                 MaxAdds=c.get("design_adds", c["L"]), FwdPerm=True, PairByMatch=True)
@@ -184,8 +226,13 @@ def count(ctx, c, g):
     n_get = sum(1 for es in g["edges"] for e in es if e["ev"] == "get")
     upd = sum(1 for n, es in enumerate(g["edges"]) for e in es
               if e["ev"] == "add" and any(x in g["nodes"][n]["coords"] for x in e["batch"]))
-    ctx.case(key=("cfg", c["dim"], c["side"], c["L"], tuple(c["maxb"]), c.get("sample") or 0),
-             nontrivial=upd > 0 and n_get > 0, n=ne)
+    if c.get("kind") == "big":
+        dup = sum(len(a["batch"]) - len({tuple(x) for x in a["batch"]}) for a in c["adds"])
+        ctx.case(key=("big", c["dim"], c["side"], c["L"], tuple(a["additive"] for a in c["adds"]), min(dup, 12), upd > 0),
+                 nontrivial=dup > 0, n=ne)
+    else:
+        ctx.case(key=("cfg", c["dim"], c["side"], c["L"], tuple(c["maxb"]), c.get("sample") or 0),
+                 nontrivial=upd > 0 and n_get > 0, n=ne)
     ctx.extra["real_nodes"] = ctx.extra.get("real_nodes", 0) + len(g["nodes"])
     ctx.extra["real_reads"] = ctx.extra.get("real_reads", 0) + n_get
     ctx.extra["real_adds_touching_stored"] = ctx.extra.get("real_adds_touching_stored", 0) + upd
@@ -225,8 +272,10 @@ def run(ctx):
                 "2 exhaustive) the real SparseNdArray is explored breadth-first under add(batch of <= 3 coordinates with "
                 "duplicates, values 1,2,4 by position, additive / overwrite) up to 3 adds, with reads (every coordinate "
                 "of the box alone, all stored coordinates, reversed with a repeat, stored + absent) at every state; "
-                "evaluations = recorded real calls; a configuration is non-trivial when its graph has adds that touch "
-                "stored coordinates and reads")
+                "plus seeded histories of 1-3 adds with batches of 4-12 items drawn from 2-4 coordinates (boxes of side "
+                "3-5, 1-D/2-D, both modes) with reads of every inserted and one absent coordinate after each add, as path "
+                "graphs under the same monitor; evaluations = recorded real calls; a configuration is non-trivial when "
+                "its graph has adds that touch stored coordinates and reads (large-batch history: duplicates in a batch)")
     ctx.assumptions = ["scalar values (value_dim = 1), integer values 1,2,4 by batch position",
                        "states = (_coords in append order, _values, number of adds): reads are recorded as self-loops"]
     cfgs = configs(ctx)
@@ -241,6 +290,10 @@ def run(ctx):
         fv = pool.submit(design, ctx, dict(dim=1, side=3, design_adds=3, design_getb=1, L=3), 2, False)
         # the real transition systems (GIL-bound: sequential), then one monitor and one conformance run over all
         graphs = [real_graph(c, 12000 if q else 60000) for c in cfgs]
+        # seeded histories with large batches (4-12 items, heavy duplication), as path graphs
+        big = big_histories(ctx.rng, 300 if q else 6000)
+        cfgs = cfgs + big
+        graphs = graphs + [path_graph(c) for c in big]
         gfile = ctx.datafile("graphs.json", graphs)
         fm = pool.submit(monitor, ctx, ctx.work / "mon", gfile, 6 if q else 12)
         ft = pool.submit(conformance, ctx, ctx.work / "trace", gfile, 6 if q else 12)
@@ -259,6 +312,7 @@ def run(ctx):
                         reads=[e for e in g["edges"][t - 1] if e["ev"] == "get"][-3:]))
     ctx.exhaustive = False  # 2-D side 3 is sampled; truncation is reported below
     ctx.extra["truncated_graphs"] = sum(1 for g in graphs if g["truncated"])
+    ctx.extra["large_batch_histories"] = len(big)
 
 
 def replay(ctx, body):
